@@ -34,6 +34,7 @@ def corpus():
     return [
         # shared long-lived state instances on top of many short-lived root scopes
         sc.churn_case(40), sc.churn_case(80, "SUA"), sc.churn_case(120, "US"),
+        sc.churn_watch_case(40), sc.churn_watch_case(90, "SUA", 3), sc.churn_watch_case(60, "AU", 2),
         C + "E0.1.A.0:1 Ws0 Ws0 E1.2.U.0:2 E0.3.U.0:3 E2.4.S.0:4 P0.0.0 P1.0.0 P2.0.0 L1.2 P1.0.0 L0.3 P0.0.0 P2.0.0 L2.4 P2.0.0 F1 F2 L0.1",
         # child started earlier does not see the parent's later scope; child outliving the parent's scope keeps its snapshot
         C + "E0.1.S.0:1 Wc0 E0.2.U.0:2 P1.0.0 L0.2 L0.1 P1.0.0 P0.0.0 E1.3.U.1:5 P1.1.0 P0.1.0 L1.3 F1",
